@@ -175,17 +175,18 @@ Definition check_inv (c : invcase) : nat :=
 
 (* ---- depends-on -------------------------------------------------------------- *)
 Inductive depcase :=
-(* Format then Parse of pl ++ formatted ++ pr; `strict` = the id is inside the
-   property's quantifier (valid names), so the round trip must succeed;
-   otherwise only "error or exact" is required *)
-| CDep (strict : bool) (i : oid) (pl pr : string) (fmt : result string) (parsed : result oid)
+(* Format then Parse of pl ++ formatted ++ pr.  `enc` (computed by the harness
+   from the fields alone) = the reference can be encoded: kind and name not
+   empty, no '/' or ',' in any field, and neither a group starting nor a name
+   ending with white space. *)
+| CDep (enc : bool) (i : oid) (pl pr : string) (fmt : result string) (parsed : result oid)
 (* Parse of an arbitrary string, then Format of the result; trimmed = strings.TrimSpace(s) *)
 | CDepParse (s trimmed : string) (parsed : result oid) (refmt : result string)
-| CDepSet (strict : bool) (l : list (string * oid * string)) (fmt : result string) (parsed : result (list oid))
+| CDepSet (enc : bool) (l : list (string * oid * string)) (fmt : result string) (parsed : result (list oid))
 (* norm = the pieces of s trimmed and joined again *)
 | CDepSetParse (s norm : string) (parsed : result (list oid)) (refmt : result string)
 (* WriteAnnotation on an empty object, then ReadAnnotation of it; and of an object without the annotation *)
-| CAnnot (strict : bool) (l : list oid) (written : result string) (read : result (list oid)) (read_absent : result (list oid)).
+| CAnnot (enc : bool) (l : list oid) (written : result string) (read : result (list oid)) (read_absent : result (list oid)).
 
 Definition render (x : string * oid * string) : result string :=
   match x with (pl, i, pr) => match format_dep i with Ok s => Ok (pl ++ s ++ pr) | Err => Err end end.
@@ -199,31 +200,30 @@ Fixpoint render_all (l : list (string * oid * string)) : result (list string) :=
   end.
 Definition snd3 (x : string * oid * string) : oid := snd (fst x).
 
+(* monitors: Format is "rejected, or round trip" for every reference, and it
+   rejects exactly the references that cannot be encoded; whatever Parse
+   accepts is given back by Format (unless it contains the set separator) *)
 Definition check_dep (c : depcase) : nat :=
   match c with
-  | CDep strict i pl pr fmt parsed =>
+  | CDep enc i pl pr fmt parsed =>
       code (res_eqb String.eqb (format_dep i) fmt
             && res_eqb oid_eqb (match fmt with Ok s => parse_dep (pl ++ s ++ pr) | Err => Err end) parsed)
-           (match fmt, parsed with
-            | Ok _, Ok j => oid_eqb i j
-            | Ok _, Err => negb strict
-            | Err, _ => negb strict || String.eqb (o_name i) "" || String.eqb (o_knd i) ""
-            end)
+           (Bool.eqb (is_ok fmt) enc
+            && match fmt with Ok _ => res_eqb oid_eqb parsed (Ok i) | Err => true end)
   | CDepParse s trimmed parsed refmt =>
       code (String.eqb (trim_space s) trimmed && res_eqb oid_eqb (parse_dep s) parsed
             && res_eqb String.eqb (match parsed with Ok i => format_dep i | Err => Err end) refmt)
            (match parsed with
-            | Ok _ => res_eqb String.eqb refmt (Ok trimmed)
+            | Ok i => negb (String.eqb (o_knd i) "") && negb (String.eqb (o_name i) "")
+                      && (if contains "," trimmed then negb (is_ok refmt)
+                          else res_eqb String.eqb refmt (Ok trimmed))
             | Err => true
             end)
-  | CDepSet strict l fmt parsed =>
+  | CDepSet enc l fmt parsed =>
       code (res_eqb String.eqb (match render_all l with Ok ss => Ok (join "," ss) | Err => Err end) fmt
             && res_eqb ids_eqb (match fmt with Ok s => parse_dep_set s | Err => Err end) parsed)
-           (match fmt, parsed with
-            | Ok _, Ok l' => ids_eqb l' (map snd3 l)
-            | Ok _, Err => negb strict
-            | Err, _ => negb strict || existsb (fun x => String.eqb (o_name (snd3 x)) "" || String.eqb (o_knd (snd3 x)) "") l
-            end)
+           (Bool.eqb (is_ok fmt) enc
+            && match fmt with Ok _ => res_eqb ids_eqb parsed (Ok (map snd3 l)) | Err => true end)
   | CDepSetParse s norm parsed refmt =>
       code (res_eqb ids_eqb (parse_dep_set s) parsed
             && res_eqb String.eqb (match parsed with Ok l => format_dep_set l | Err => Err end) refmt)
@@ -231,15 +231,11 @@ Definition check_dep (c : depcase) : nat :=
             | Ok _ => res_eqb String.eqb refmt (Ok norm)
             | Err => true
             end)
-  | CAnnot strict l written read read_absent =>
+  | CAnnot enc l written read read_absent =>
       code (res_eqb String.eqb (write_annotation l) written
             && res_eqb ids_eqb (match written with Ok s => read_annotation (Some s) | Err => Err end) read
             && res_eqb ids_eqb (read_annotation None) read_absent)
            (res_eqb ids_eqb read_absent (Ok [])
-            && match written, read with
-               | Ok _, Ok l' => ids_eqb l' l
-               | Ok _, Err => negb strict
-               | Err, _ => negb strict || match l with [] => true | _ => false end
-                           || existsb (fun x => String.eqb (o_name x) "" || String.eqb (o_knd x) "") l
-               end)
+            && Bool.eqb (is_ok written) (enc && match l with [] => false | _ => true end)
+            && match written with Ok _ => res_eqb ids_eqb read (Ok l) | Err => true end)
   end.
